@@ -15,8 +15,9 @@
      MutNew / MutSetPos / MutSetRot / MutSetRad
                Cell, CellSquare, Rectangle, Circle and Cell3Sec (with its three sector cells) under any
                sequence of pos / rotation / radius setter calls (a finite machine: ALL histories are explored)
-     Place, PProc   enumerate the (rel) cases: random user placement and random point processes;
-               the module supplies the exact polygon / radii the placement is judged with.
+     Place, PlaceCl, PProc   enumerate the (rel) cases: random user placement (cell / cluster route)
+               and random point processes; the module supplies the exact polygon / radii the random
+               outcome is judged with.
 
    The pure operations form a "star": Init is idle, one step picks a case from the finite domain
    given by the constants and computes (a) in `out` what the IMPLEMENTATION-SHAPED machine returns
@@ -26,7 +27,15 @@
    the shape's own vertices; on the boundary / in the direction / scaled by the ratio;
    congruent, centred, touching without overlapping, ...).  Named deviations (fields of Dev)
    switch single steps of the machine to what the code does; with all flags FALSE every
-   invariant holds, with a flag TRUE TLC finds the violation.
+   invariant holds, with a flag TRUE TLC finds the violation:
+     RectangleContainmentIgnoresRotation  Rectangle.is_point_inside_shape compares the query point
+                                          with the un-rotated corners without undoing the rotation
+     BorderPointTwoNearestVertices        get_border_point intersects the ray with the LINE through the
+                                          two vertices nearest to centre + radius * direction
+     RectanglePosSetterKeepsCorners       setting pos of a Rectangle / CellSquare leaves its corners behind
+     LayoutSkipsCentring, Sec3SetPosKeepsSectors, Sec3SetRadiusKeepsCentres   (plausible regressions)
+   Trace_Geometry.tla (stage T) validates histories recorded from the real classes against the
+   same setter semantics and containment predicate.
 
    Vertex constructions (counter-clockwise, before rotation about the centre and translation):
      hexagon   r cis(240 + 60 k), k = 0..5               (first vertex lower left)
@@ -53,11 +62,10 @@ CONSTANTS Ops,       \* enabled operations (subset of the names above, lower cas
           RelCases,  \* sequence of (rel) cases, see Place / PProc
           Dev        \* [name |-> BOOLEAN]
 
-VARIABLES c,     \* the operation executed last (with its arguments) / the Cell3Sec object
-          out    \* what the machine returned / stores
+VARIABLES c,     \* the operation executed last with its arguments; for op = "mut" the object's pos / size / rotation
+          out    \* what the machine returned; for op = "mut" also what the object stores
 vars == <<c, out>>
 
-MarginInv2 == 10000              \* margin 1/100: 1/margin^2
 Half    == QF(1, 2)
 
 (* ------------------------------------ shapes ---------------------------------------------------- *)
